@@ -48,6 +48,11 @@ GENERAL = {
     # 2-D triangular host, 3 edge-centre sites (3-fold: E mode couples to strain)
     'tri-edge': lambda: (crystal.Crystal(np.array([[1., 0.5], [0., np.sqrt(0.75)]]),
                                          [[np.zeros(2)], [np.array([0.5, 0.]), np.array([0., 0.5]), np.array([0.5, 0.5])]]), 1, 0.6),
+    # BCC host, octahedral (3) + <111> bond-midpoint trigonal (4) sites: a THREE-fold degenerate mode that couples to shear dipoles
+    'bcc-oct-trig': lambda: (crystal.Crystal(np.array([[-0.5, 0.5, 0.5], [0.5, -0.5, 0.5], [0.5, 0.5, -0.5]]),
+                                             [[np.zeros(3)], [np.array([0., 0.5, 0.5]), np.array([0.5, 0., 0.5]), np.array([0.5, 0.5, 0.]),
+                                                              np.array([0.5, 0.5, 0.5]), np.array([0.5, 0., 0.]), np.array([0., 0.5, 0.]),
+                                                              np.array([0., 0., 0.5])]]), 1, 0.55),
     # HCP octahedral + tetrahedral network (two classes, 6 sites)
     'hcp-ot': lambda: (geom_hcpot(), 1, 0.7),
 }
@@ -418,7 +423,7 @@ def replay_loss(rec):
 def validate_oracle(chk):
     """the replay oracle accepts the unchanged code on random inputs (also validates the harness' reference formulas)"""
     rng = np.random.RandomState(7)
-    for cname in ('X2', 'X5', 'X1s', 'X6', 'bccoct', 'tri-edge', 'hcp-ot'):
+    for cname in ('X2', 'X5', 'X1s', 'X6', 'bccoct', 'tri-edge', 'hcp-ot', 'bcc-oct-trig'):
         crys, calc, jn = get_calc(cname)
         ok = connected(calc)
         chk.note_concrete('connected:%s' % cname, ok)
@@ -439,10 +444,10 @@ def validate_oracle(chk):
 def sections(tier):
     S = run.Section
     if tier == 'quick':
-        plan = [('X2', None, 160), ('X2', 0, 160), ('X2', 3, 160), ('X5', 0, 160), ('X5', 1, 160), ('X1s', 0, 160), ('X2b', 1, 160), ('X6', 0, 160), ('bccoct', 0, 160), ('bccoct', 2, 160), ('tri-edge', 1, 160), ('hcp-ot', 0, 160)]
+        plan = [('X2', None, 160), ('X2', 0, 160), ('X2', 3, 160), ('X5', 0, 160), ('X5', 1, 160), ('X1s', 0, 160), ('X2b', 1, 160), ('X6', 0, 160), ('bccoct', 0, 160), ('bccoct', 2, 160), ('tri-edge', 1, 160), ('hcp-ot', 0, 160), ('bcc-oct-trig', 0, 160)]
     else:
         plan = [('X2', None, 1200), ('X2b', None, 1200), ('X5', None, 1200), ('X1s', None, 1200)] + \
-               [(c, k, 1200) for c in ('X2', 'X2b', 'X5', 'X1s', 'X1', 'X6', 'bccoct', 'tri-edge', 'hcp-ot') for k in range(4)]
+               [(c, k, 1200) for c in ('X2', 'X2b', 'X5', 'X1s', 'X1', 'X6', 'bccoct', 'tri-edge', 'hcp-ot', 'bcc-oct-trig') for k in range(4)]
     return [S('loss:%s:%s' % (c, 'sym' if g is None else 'g%d' % g), loss_laws(c, g), timeout_ms=30000, budget_s=b, replayer='loss',
               config='%s/%s' % (c, 'all energies symbolic' if g is None else 'grid %d' % g), maxpaths=40) for c, g, b in plan]
 
